@@ -10,6 +10,8 @@
 (*                                       (PNG 6.2 / 9.2-9.4, ISO 32000 7.4.4.4) *)
 (*   zlib      RFC 1950 wrapper with adler32 around RFC 1951 *stored* blocks *)
 (*             (real Huffman deflate is flate2's code, not lopdf's)         *)
+(*   ASCIIHex, RunLength, TIFF predictor 2: the reference pairs of CodecsExt  *)
+(*             (ISO 32000-1 7.4.2, 7.4.5, 7.4.4.4), first-class stages here  *)
 (*   LZW       9-12 bit codes packed MSB first, clear-table 256, EOD 257,    *)
 (*             EarlyChange 0|1               (ISO 32000-1 7.4.4.2, TIFF 6)  *)
 (*                                                                          *)
@@ -265,16 +267,28 @@ LzwDecode(enc, early) ==
 Flate == "FlateDecode"
 Lzw   == "LZWDecode"
 A85   == "ASCII85Decode"
+AHx   == "ASCIIHexDecode"
+RL    == "RunLengthDecode"
+
+\* ASCIIHexDecode (7.4.2), RunLengthDecode (7.4.5) and the TIFF predictor (Predictor 2, every component width)
+\* are the reference pairs of CodecsExt: AHxEncode/AHxDecode, RLEncode/RLDecode, TiffEncodeB/TiffDecodeB
+CX == INSTANCE CodecsExt
 
 DefaultParms == [present |-> FALSE, pred |-> 1, colors |-> 1, bpc |-> 8, columns |-> 1, early |-> 1]
 Stage(f, p) == [f |-> f, present |-> p.present, pred |-> p.pred, colors |-> p.colors, bpc |-> p.bpc,
                 columns |-> p.columns, early |-> p.early]
 
-Bpp(p)     == (p.colors * p.bpc) \div 8
-RowLen(p)  == Bpp(p) * p.columns
+\* Predictor geometry (ISO 32000-1 Table 8, PNG 9): BitsPerComponent 1, 2, 4, 8 or 16.  A row is a whole number of
+\* bytes, RowLen = ceil(Columns * Colors * BPC / 8); the PNG filters work on bytes whose left neighbour is one pixel,
+\* but at least one byte, away: Bpp = max(1, ceil(Colors * BPC / 8)).
+Bpp(p)     == LET b == (p.colors * p.bpc + 7) \div 8 IN IF b < 1 THEN 1 ELSE b
+RowLen(p)  == (p.columns * p.colors * p.bpc + 7) \div 8
 UsesPng(p) == p.pred \in 10..15
+UsesTiff(p) == p.pred = 2
 
-Unpredict(x, p) == IF UsesPng(p) THEN PngDecode(x, Bpp(p), RowLen(p)) ELSE Good(x)
+Unpredict(x, p) == IF UsesPng(p) THEN PngDecode(x, Bpp(p), RowLen(p))
+                   ELSE IF UsesTiff(p) THEN CX!TiffDecodeB(x, p.colors, p.bpc, p.columns)
+                   ELSE Good(x)
 
 \* inflate of the zlib stream x.  `orc` is an oracle for real (Huffman) deflate data, which this
 \* specification does not decode: [has |-> TRUE, data |-> bytes] = "an independent inflater says
@@ -287,6 +301,8 @@ DecodeStage(x, st, orc) ==
     IF st.f = A85 THEN A85Decode(x)
     ELSE IF st.f = Flate THEN LET z == Inflate(x, orc) IN IF z.ok THEN Unpredict(z.data, st) ELSE z
     ELSE IF st.f = Lzw THEN LET z == LzwDecode(x, st.early) IN IF z.ok THEN Unpredict(z.data, st) ELSE z
+    ELSE IF st.f = AHx THEN CX!AHxDecode(x)
+    ELSE IF st.f = RL THEN CX!RLDecode(x)
     ELSE Fail(x)
 
 \* The declarative decode of a stream: content, chain of stages, oracle for stage 1.
@@ -302,10 +318,14 @@ Decode(x, chain) == DecodeO(x, chain, NoOracle)
 \* written as no Filter entry, as /Filter null (7.3.9: the same as no entry) or as /Filter [].
 
 \* Reference encoder of one stage.  ch = the encoder's free choices
-\* [fts (filter type per row), bs (stored block size), useZ, reset (LZW clear threshold)].
+\* [fts (filter type per row), bs (stored block size), useZ, reset (LZW clear threshold),
+\*  style (ASCIIHex spelling), seg / eod (RunLength piece size, EOD written or not)].
 EncodeStage(x, st, ch) ==
-    LET pre == IF UsesPng(st) THEN PngEncode(x, Bpp(st), RowLen(st), ch.fts) ELSE x
+    LET pre == IF UsesPng(st) THEN PngEncode(x, Bpp(st), RowLen(st), ch.fts)
+               ELSE IF UsesTiff(st) THEN CX!TiffEncodeB(x, st.colors, st.bpc, st.columns) ELSE x
     IN IF st.f = A85 THEN A85Encode(x, ch.useZ)
+       ELSE IF st.f = AHx THEN CX!AHxEncode(x, ch.style)
+       ELSE IF st.f = RL THEN CX!RLEncode(x, ch.seg, ch.eod)
        ELSE IF st.f = Flate THEN ZStored(pre, ch.bs)
        ELSE LzwEncode(pre, st.early, ch.reset)
 
@@ -335,6 +355,15 @@ ImplPngDecodeRow(ft, bpp0, prev, filt, devAvg) ==
                                 IN Append(acc, (x + ImplPred(ft, Back(acc, i, bpp), prev[i], Back(prev, i, bpp), i, bpp, devAvg)) % 256),
                 <<>>, filt)
 
+\* png::encode_row (public; the inverse of decode_row)
+\*   devEncAvg  Average: left + above is added in u8 (wraps at 256) before it is halved
+ImplPngEncodeRow(ft, bpp0, prev, raw, devEncAvg) ==
+    LET bpp == Min2(bpp0, Len(raw))
+    IN [i \in 1..Len(raw) |->
+          LET a == Back(raw, i, bpp) b == prev[i]
+              p == IF ft = 3 /\ devEncAvg /\ i > bpp THEN ((a + b) % 256) \div 2 ELSE Pred(ft, a, b, Back(prev, i, bpp))
+          IN (raw[i] + 256 - p) % 256]
+
 ImplPngDecode(enc, bpp, L, devAvg) ==
     LET n == (Len(enc) + L) \div (L + 1)          \* a trailing partial row is an error in decode_frame
         S == FoldLeft(LAMBDA acc, r :
@@ -363,7 +392,9 @@ ImplDecodeZero(x, ff, devEmpty) ==
 
 \* parms = the one dictionary lopdf hands to every Flate/LZW stage, or DefaultParms when it found none
 ImplUnpredict(x, p, devAvg) ==
-    IF p.present /\ UsesPng(p) THEN ImplPngDecode(x, Bpp(p), RowLen(p), devAvg) ELSE Good(x)
+    IF p.present /\ UsesPng(p) THEN ImplPngDecode(x, Bpp(p), RowLen(p), devAvg)
+    ELSE IF p.present /\ UsesTiff(p) THEN CX!TiffDecodeB(x, p.colors, p.bpc, p.columns)
+    ELSE Good(x)
 
 ImplDecodeO(x, chain, form, orc, devAvg, devArr, devNul) ==
     LET P(i) == IF form = "dict" THEN chain[1]
@@ -376,6 +407,8 @@ ImplDecodeO(x, chain, form, orc, devAvg, devArr, devNul) ==
                                    IN IF z.ok THEN ImplUnpredict(z.data, p, devAvg) ELSE z
             ELSE IF f = Lzw THEN LET z == LzwDecode(xx, IF p.present THEN p.early ELSE 1)
                                  IN IF z.ok THEN ImplUnpredict(z.data, p, devAvg) ELSE z
+            ELSE IF f = AHx THEN CX!AHxDecode(xx)
+            ELSE IF f = RL THEN CX!RLDecode(xx)
             ELSE Fail(xx)
     IN FoldLeft(LAMBDA acc, i : IF acc.ok THEN St(acc.data, i) ELSE acc, Good(x), [i \in 1..Len(chain) |-> i])
 
@@ -419,6 +452,8 @@ ImplInflateLenient(x, orc) == IF orc.has THEN orc.data ELSE ZInflateStored(x).da
 ImplDecodeT(x, chain, form, orc, rows, devRows) ==
     LET P(i) == IF form = "dict" THEN chain[1] ELSE IF form = "array" THEN chain[i] ELSE DefaultParms
         Unp(d, p, rw) == IF p.present /\ UsesPng(p) THEN ImplPngDecodeT(d, Bpp(p), RowLen(p), rw, devRows)
+                         ELSE IF p.present /\ UsesTiff(p)
+                         THEN LET z == CX!TiffDecodeB(d, p.colors, p.bpc, p.columns) IN [ok |-> z.ok, data |-> z.data, rows |-> rw]
                          ELSE [ok |-> TRUE, data |-> d, rows |-> rw]
         St(acc, i) ==
             LET f == chain[i].f p == P(i) IN
@@ -426,6 +461,8 @@ ImplDecodeT(x, chain, form, orc, rows, devRows) ==
             ELSE IF f = Flate THEN Unp(ImplInflateLenient(acc.data, IF i = 1 THEN orc ELSE NoOracle), p, acc.rows)
             ELSE IF f = Lzw THEN LET z == LzwDecode(acc.data, IF p.present THEN p.early ELSE 1)
                                  IN IF z.ok THEN Unp(z.data, p, acc.rows) ELSE [ok |-> FALSE, data |-> z.data, rows |-> acc.rows]
+            ELSE IF f \in {AHx, RL} THEN LET z == IF f = AHx THEN CX!AHxDecode(acc.data) ELSE CX!RLDecode(acc.data)
+                                      IN [ok |-> z.ok, data |-> z.data, rows |-> acc.rows]
             ELSE [ok |-> FALSE, data |-> acc.data, rows |-> acc.rows]
     IN IF chain = <<>> THEN [ok |-> TRUE, data |-> x, rows |-> rows]
        ELSE FoldLeft(LAMBDA acc, i : IF acc.ok THEN St(acc, i) ELSE acc, [ok |-> TRUE, data |-> x, rows |-> rows],
